@@ -69,7 +69,8 @@ MANIFEST = dict(
           'outer) is sound for ALL shapes, ranks and arguments, that soundness composes over '
           'arbitrary view expression trees (static_sound), that a buffer of bounded_size elements holds every result (result_buffer_fits) and that the '
           'container the default eval resolver chooses from the five traits can be given the run-time shape and holds every element of every instance '
-          '(eval_result_buffer_fits, composed_eval_result_fits). The transfer functions and the resolver model are tied to the real metafunctions by '
+          '(eval_result_buffer_fits, composed_eval_result_fits; for the older resolver of a bare array::eval(view) under the explicit condition that '
+          'the reused operand container covers the view: old_eval_result_buffer_fits). The transfer functions and the resolver model are tied to the real metafunctions by '
           'generated translation units: for every program (depth 1..3 over 10 leaf kinds) the printed fixed_shape/fixed_dim/fixed_size/bounded_dim/'
           'bounded_size, the shape-type kind and the kind / fixed_size / bounded_size of the eval result type must equal the Lean prediction, and for every '
           'run-time shape the type admits they must agree with the object and with NumPy, and eval must return the whole result.'),
@@ -80,7 +81,9 @@ MANIFEST = dict(
           'outside that class. matmul of two constant-shape operands reports fixed_size 4 next to bounded_size 36 (sound; SizeK.knownB). '
           'Three metafunctions that read the maxima of a clipped shape as its extents '
           '(broadcast_shape, shape_take, shape_squeeze) were found earlier and repaired (fixes/C11-*.diff). Kind combinations that do not compile are excluded '
-          '(harness/c11_uncompilable.txt).'),
+          '(harness/c11_uncompilable.txt). Open finding C11.old-resolver-operand-container: a bare array::eval(view) (older resolver eval_t, the default '
+          'resolver_t) takes the operand type for the result; a view of higher rank / larger size than the operand container admits comes back as a '
+          'default-constructed array (old_eval_counterexample; repair proposal fixes/C11-old-resolver-operand-container.diff, not applied).'),
     technique='Lean 4 soundness proof of an abstract interpretation + differential correspondence on generated kind-matrix translation units')
 
 _cache = {}
